@@ -554,3 +554,12 @@ func FindingOpen(id string) bool {
 	}
 	return openFindings[id]
 }
+
+// Fatal reports a violation which cannot be shrunk (e.g. a call that does
+// not terminate, leaving goroutines spinning) and ends the process: the
+// replay file holds the case as generated.
+func Fatal(property, kind string, c any, msg string) {
+	Violation(property, kind, c, msg)
+	Flush()
+	os.Exit(1)
+}
